@@ -727,7 +727,7 @@ fn serve_h2(s: TcpStream, bk: &str, obs: &str, scripts: &[ReqSpec], healthy: boo
         return;
     }
     c.send(&Frame::settings(&[]));
-    let mut after_goaway = false;
+    let mut goaway_last: u32 = u32::MAX;
     loop {
         if stop.load(Ordering::SeqCst) { return; }
         let Some(f) = c.read_frame(Duration::from_millis(20)) else {
@@ -774,8 +774,9 @@ fn serve_h2(s: TcpStream, bk: &str, obs: &str, scripts: &[ReqSpec], healthy: boo
                     if !okw { log.push(obs, json!({"ev": "B_WriteErr", "bk": bk, "r": idx})); return; }
                     continue;
                 }
-                if after_goaway {
+                if f.sid > goaway_last {
                     // a stream above the announced last_stream_id: a server that is shutting down ignores it
+                    // (one at or below it - GOAWAY(2^31-1) is only a warning - is served like any other)
                     log.push(obs, json!({"ev": "B_ReqAfterGoaway", "bk": bk, "r": idx, "sid": f.sid}));
                     continue;
                 }
@@ -816,7 +817,7 @@ fn serve_h2(s: TcpStream, bk: &str, obs: &str, scripts: &[ReqSpec], healthy: boo
                         if !c.send_raw(part) { log.push(obs, json!({"ev": "B_WriteErr", "bk": bk, "r": idx})); return; }
                     }
                     log.push(obs, json!({"ev": "B_Send", "bk": bk, "r": idx, "bytes": if spec.lsid == "below" { cutg } else { resp.len() }, "head": hlen, "total": resp.len(), "units": spec.body}));
-                    after_goaway = true;
+                    goaway_last = last;
                     continue;
                 }
                 let faulty = spec.fault != "none" && spec.at != "between";
@@ -893,13 +894,15 @@ pub struct ReqObs {
     pub t_sent: Option<Instant>,
     /// interim (1xx) responses seen before the final one
     pub interims: u32,
+    /// the first bytes of what arrived behind the answer (second answer)
+    pub extra_head: String,
 }
 
 impl ReqObs {
     pub fn to_json(&self) -> Value {
         json!({"r": self.idx, "sent": self.sent, "status": self.status, "extra_answers": self.extra_answers,
                "declared": self.declared, "framing": self.framing, "body_len": self.body.len(), "xreq": self.xreq,
-               "complete": self.complete, "abort": self.abort, "conn_close_hdr": self.conn_close_hdr, "interims": self.interims,
+               "complete": self.complete, "abort": self.abort, "conn_close_hdr": self.conn_close_hdr, "interims": self.interims, "extra_head": self.extra_head,
                "t_status_ms": self.t_status_ms, "t_end_ms": self.t_end_ms})
     }
     /// ("<status>|none", "complete|abort|closed|hang|notsent")
@@ -1135,7 +1138,7 @@ pub fn run_h1_client(env: &ScnEnv, scn: &Scenario, cfg: &RunCfg) -> Result<Vec<R
                 log.push("client", json!({"ev": "C_NotSent", "r": i}));
                 continue;
             }
-            if i > lo && scn.mode == "seqgap" && scn.reqs[..i].iter().any(|r| r.at == "between") {
+            if i > lo && scn.mode == "seqgap" && scn.reqs[..i].iter().any(|r| r.at == "between" && r.fault != "goaway") {
                 // wait until sozu has reacted to the backend's close of the idle connection
                 let until = Instant::now() + Duration::from_secs(4);
                 while env.peer_closed.load(Ordering::SeqCst) == 0 && Instant::now() < until {
@@ -1149,6 +1152,7 @@ pub fn run_h1_client(env: &ScnEnv, scn: &Scenario, cfg: &RunCfg) -> Result<Vec<R
                 rd.fill(Instant::now() + Duration::from_millis(if scn.mode == "seqgap" { 5 } else { 30 }));
                 if rd.buf.len() > before || before > 0 {
                     obs[i - 1].extra_answers += 1;
+                    obs[i - 1].extra_head = String::from_utf8_lossy(&rd.buf[..rd.buf.len().min(60)]).to_string();
                     rd.buf.clear();
                 }
                 if rd.eof.is_some() {
@@ -1202,7 +1206,7 @@ pub fn run_h2_client(env: &ScnEnv, scn: &Scenario, cfg: &RunCfg) -> Result<Vec<R
     loop {
         // send what may be sent
         while next < n && conn_dead.is_none() && (scn.mode == "mux" || next == lo || obs[next - 1].ended()) {
-            if next > lo && scn.mode == "seqgap" && scn.reqs[..next].iter().any(|r| r.at == "between") {
+            if next > lo && scn.mode == "seqgap" && scn.reqs[..next].iter().any(|r| r.at == "between" && r.fault != "goaway") {
                 let until = Instant::now() + Duration::from_secs(4);
                 while env.peer_closed.load(Ordering::SeqCst) == 0 && Instant::now() < until {
                     std::thread::sleep(Duration::from_millis(5));
